@@ -30,7 +30,7 @@ VARIABLES cur,   \* argument of the last conversion: [w |-> width, sg |-> signed
 vars == <<cur, num>>
 
 Widths     == {8, 16, 32, 64}
-GroupChars == {39, 44, 46, 32, 95}          \* ' , . blank _   (39 is the documented default)
+GroupChars == {39, 44, 46, 32, 95, 0, 255}  \* ' , . blank _ NUL 0xFF  (39 is the documented default)
 Fns        == {"str", "buf", "gstr", "gbuf", "gstream"}
 \*  str     std::string int2string(T)                     buf   int int2string(char*, T)
 \*  gstr    std::string grouped_int2string(T, char)       gbuf  int grouped_int2string(char*, T, char)
